@@ -110,11 +110,11 @@ class Function:
                 return w
         return None
 
-    def line(self, i):
+    def lineof(self, i):
         return self.nodes[i].get("l", 0)
 
     def loc(self, i=None):
-        return "%s:%d" % (self.file, self.line(i) if i is not None else self.line)
+        return "%s:%d" % (self.file, self.lineof(i) if i is not None else self.line)
 
     def macros(self, i):
         return self.nodes[i].get("m", [])
